@@ -85,7 +85,13 @@ theorem sentClosedB_sound (db : DB) (hw : WfEntries db) (h : sentClosedB db = tr
 theorem stepOKb_sound (s : FState) (b : Blk) (hw : WfEntries s.db) (h : stepOKb s b = true) :
     Props.C01.StepOK s b := by
   simp only [stepOKb, Bool.and_eq_true] at h
-  exact ⟨sentClosedB_sound _ hw h.1.1.1, wfInB_sound b h.1.1.2, hbB_sound _ b h.1.2, libDeclB_sound _ b h.2⟩
+  refine ⟨?_, sentClosedB_sound _ hw h.1.1.1.2, wfInB_sound b h.1.1.2, hbB_sound _ b h.1.2, libDeclB_sound _ b h.2⟩
+  have h0 := h.1.1.1.1
+  simp only [Bool.or_eq_true, Bool.not_eq_true', bne_iff_ne, ne_eq] at h0
+  rcases h0 with (h0 | h0) | h0
+  · exact Or.inl h0
+  · exact Or.inr (Or.inl h0)
+  · exact Or.inr (Or.inr h0)
 
 end BstreamVerif.Forkable
 
@@ -200,7 +206,7 @@ example : ∃ P', (⟨"r", []⟩ : CS).run (runHistory cfgX (init cfgX) hX).2 =
     have : ∀ x ∈ hX, x ∈ uX := by decide
     exact this b hb
   obtain ⟨P', h1, _⟩ := Props.C01.history_discipline_consistent cfgX (by decide) (by decide) (by decide)
-    (ofList uX) hU hX ["r"] (init cfgX) [] hI hJ hin (libHistB_sound cfgX hX _ (by decide))
+    (ofList uX) hU hX ["r"] (init cfgX) [] hI hJ hin (libHistB_sound cfgX hX _ (by decide)) (Or.inl rfl)
   exact ⟨P', h1⟩
 
 end BstreamVerif.Forkable
